@@ -178,8 +178,10 @@ pub fn compare_model(cx: &mut Ctx, ui: usize, vi: usize, facts: &[Fact], got: &R
 fn mode_model(cx: &mut Ctx, prop: &str, only_unit: Option<usize>, only_input: Option<Vec<Fact>>) {
     // input budget: a fixed number of runs per shard, spread over the shard's programs
     let nprogs = (0..cx.units.len()).filter(|ui| !cx.makes(*ui).is_empty()).count().max(1);
-    let per_shard: usize = if cx.thorough { 8_000_000 } else { 800_000 };
-    let budget = (per_shard / nprogs).clamp(4100, 300_000);
+    let mut per_shard: usize = if cx.thorough { 8_000_000 } else { 800_000 };
+    if cx.family == "ds" { per_shard /= 5; } // BYODS programs carry ~10 reader rules each
+    if cx.family == "par" { per_shard /= 16; } // three variants per unit, parallel runs cost ~0.3 ms each
+    let budget = (per_shard / nprogs).clamp(if cx.family == "ds" { 3000 } else { 4100 }, 300_000);
     let max_bits = (usize::BITS - budget.leading_zeros() - 1) as usize;
     let mut inputs_desc = String::new();
     for ui in 0..cx.units.len() {
@@ -230,8 +232,9 @@ fn mode_model(cx: &mut Ctx, prop: &str, only_unit: Option<usize>, only_input: Op
 /// same inputs with one fact given twice (duplicates the caller put in are the only allowed surplus).
 fn mode_c05(cx: &mut Ctx, only_unit: Option<usize>, only_input: Option<Vec<Fact>>) {
     let nprogs = (0..cx.units.len()).filter(|ui| !cx.makes(*ui).is_empty()).count().max(1);
-    let per_shard: usize = if cx.thorough { 8_000_000 } else { 400_000 };
-    let budget = (per_shard / nprogs).clamp(4100, 300_000);
+    let mut per_shard: usize = if cx.thorough { 8_000_000 } else { 220_000 };
+    if cx.family == "par" { per_shard /= 16; }
+    let budget = (per_shard / nprogs).clamp(if cx.family == "par" { 500 } else { 4100 }, 300_000);
     let max_bits = (usize::BITS - budget.leading_zeros() - 1) as usize;
     for ui in 0..cx.units.len() {
         let makes = cx.makes(ui);
@@ -339,8 +342,9 @@ fn has_agg_or_neg(p: &Prog) -> bool {
 /// C13: run() is idempotent; monotone re-runs equal a fresh run on the union of all inputs
 fn mode_c13(cx: &mut Ctx, only_unit: Option<usize>, only_case: Option<(Vec<Fact>, Vec<Vec<Fact>>)>) {
     let nprogs = (0..cx.units.len()).filter(|ui| !cx.makes(*ui).is_empty()).count().max(1);
-    let per_shard: usize = if cx.thorough { 6_000_000 } else { 500_000 };
-    let budget = (per_shard / nprogs).clamp(300, 100_000);
+    let mut per_shard: usize = if cx.thorough { 6_000_000 } else { 280_000 };
+    if cx.family == "par" { per_shard /= 20; }
+    let budget = (per_shard / nprogs).clamp(if cx.family == "par" { 150 } else { 300 }, 100_000);
     for ui in 0..cx.units.len() {
         let makes = cx.makes(ui);
         if makes.is_empty() || only_unit.map_or(false, |o| o != ui) { continue; }
@@ -578,6 +582,14 @@ fn mode_c14(cx: &mut Ctx, only_unit: Option<usize>, only_case: Option<(Vec<Fact>
 
 /// entry point of every generated harness binary
 pub fn main(family: &str, tier: &str, shard: usize, nshards: usize, table: &[Entry]) -> ! {
+    // Everything runs on the single worker of a one-thread rayon pool: parallel programs then execute
+    // their default (sequential, nothing stolen) schedule, deterministically; other schedules are the
+    // business of the vsched engine.
+    let pool = ascent::rayon::ThreadPoolBuilder::new().num_threads(1).stack_size(64 << 20).build().unwrap();
+    pool.install(|| main_inner(family, tier, shard, nshards, table))
+}
+
+fn main_inner(family: &str, tier: &str, shard: usize, nshards: usize, table: &[Entry]) -> ! {
     let start = std::time::Instant::now();
     silence_panics();
     let args: Vec<String> = std::env::args().collect();
@@ -612,7 +624,7 @@ pub fn main(family: &str, tier: &str, shard: usize, nshards: usize, table: &[Ent
     let mut cx = Ctx { family: family.into(), mode: mode.clone(), thorough, units, table: &table, rep };
     if cx.rep.machinery_errors.is_empty() {
         match mode.as_str() {
-            "C01" | "C03" | "C04" | "C10" | "C11" | "C12" => { let m = mode.clone(); mode_model(&mut cx, &m, only_unit, only_input) }
+            "C01" | "C02" | "C03" | "C04" | "C10" | "C11" | "C12" => { let m = mode.clone(); mode_model(&mut cx, &m, only_unit, only_input) }
             "C05" => mode_c05(&mut cx, only_unit, only_input),
             "C14" => {
                 let case = replay.as_ref().map(|r| (only_input.clone().unwrap_or_default(), r.get("case").get("timeouts_ns").as_array().map(|a| a.iter().map(|x| x.as_u64().unwrap()).collect()).unwrap_or_default()));
